@@ -53,6 +53,32 @@ Definition result_dtype (requested : option dtype) (k : opkind) (a b : dtype) : 
 Definition reduce_dtype (requested : option dtype) (a : dtype) : dtype :=
   match requested with Some r => r | None => a end.
 
+(* every argument form that selects the result element type of a binary element-wise view:
+     fn(a,b), fn(a,b,casting::auto_t{})                    -> op<none,none,none>: decltype(a op b)  (C++ promotion)
+     fn(a,b,casting::same_kind_t{} / equiv_t{}) (add, subtract, multiply; operand element types must be equal)
+                                                           -> op<lhs_t,rhs_t,rhs_t>: static_cast<rhs_t>(a op b)
+     outer_fn(a,b,dtype), reduce_fn / accumulate_fn(a,axis,dtype) -> op<none,none,res_t>: the requested dtype *)
+Inductive castform := CastDefault | CastAuto | CastSameKind | CastEquiv | CastDtype (r : dtype).
+Definition binary_result_dtype (form : castform) (k : opkind) (a b : dtype) : dtype :=
+  match form with
+  | CastDefault | CastAuto => result_dtype None k a b
+  | CastSameKind | CastEquiv => b
+  | CastDtype r => r
+  end.
+
+(* conversion of an (exact) integer value into a dtype: unsigned: modulo 2^bits ([conv.integral]); signed: two's complement
+   (what gcc / clang do; implementation-defined before C++20); bool: != 0; floating: exact while |z| < 2^24 resp. 2^53 *)
+Definition int_cast (d : dtype) (z : Z) : Z :=
+  match d with
+  | Bool => if (z =? 0)%Z then 0%Z else 1%Z
+  | U8 | U16 | U32 | U64 => wrap (bits d) z
+  | I8 | I16 | I32 | I64 => swrap (bits d) z
+  | F32 | F64 => z
+  end.
+(* element of a binary view on integer-valued data: the exact result converted into the result element type *)
+Definition typed_binary (form : castform) (op : Z -> Z -> Z) (a b : dtype) (x y : Z) : Z :=
+  int_cast (binary_result_dtype form Arith a b) (op x y).
+
 (* ---------- exhaustive facts ---------- *)
 Definition forall2 (p : dtype -> dtype -> bool) : bool :=
   forallb (fun a => forallb (p a) all_dtypes) all_dtypes.
@@ -91,3 +117,18 @@ Qed.
 
 Lemma promote_cxx_idem a : promote_cxx a a = int_promote a.
 Proof. destruct a; reflexivity. Qed.
+
+(* the casting forms: default / auto give the C++ promotion (never narrower than int: a narrow element type widens),
+   same_kind / equiv on equal operand types KEEP the operand type (so a narrow type stays narrow and its values wrap),
+   an explicit dtype is the result type *)
+Lemma binary_result_dtype_forms a r :
+  binary_result_dtype CastDefault Arith a a = int_promote a
+  /\ binary_result_dtype CastAuto Arith a a = int_promote a
+  /\ binary_result_dtype CastSameKind Arith a a = a
+  /\ binary_result_dtype CastEquiv Arith a a = a
+  /\ binary_result_dtype (CastDtype r) Arith a a = r
+  /\ (bits a <? 32 = true -> is_float a = false -> binary_result_dtype CastDefault Arith a a = I32)%Z.
+Proof.
+  cbn [binary_result_dtype result_dtype]. rewrite promote_cxx_idem. repeat split.
+  destruct a; cbn; intros; try reflexivity; discriminate.
+Qed.
